@@ -239,6 +239,35 @@ def rule_linearity(ctx, rule='R07.l'):
             ctx.holds(rule, construct, 'T(a f + b g) == a T(f) + b T(g)', m.loc())
         else:
             ctx.violation(rule, construct, 'nonlinear', 'T(af+bg) - aT(f) - bT(g) = %s' % N.show(lhs - rhs), m.loc())
+        # purity and state independence: the argument and the Domain are left untouched, the result is a new array, and a
+        # second transform (of g after f) equals the transform of g by a fresh Domain
+        arr_f = Arr(N.sym('f'), 'array', ip)
+        e0 = len(ip.events)
+        before = {k_: (v_.t if isinstance(v_, (Arr, Num)) else None) for k_, v_ in dom.attrs.items()}
+        out_f = ip.call(ip.find_method(dom, nm), [arr_f], {})
+        out_g = ip.call(ip.find_method(dom, nm), [Arr(N.sym('g'), 'array2', ip)], {})
+        bad = []
+        for e in ip.events[e0:]:
+            if e['kind'] == 'write' and (e['target'] or '').startswith('array'):
+                bad.append('writes its argument in place at %s' % e['loc'])
+            elif e['kind'] in ('write', 'bind') and (e['target'] or '').startswith('self'):
+                bad.append('modifies the Domain (%s) at %s' % (e['target'], e['loc']))
+        root = out_f.base if isinstance(out_f, View) else out_f
+        if root is arr_f or (isinstance(root, Arr) and not root.fresh):
+            bad.append('returns (a view of) an existing array instead of a new one')
+        if out_f is out_g or (isinstance(out_g, Arr) and isinstance(out_f, Arr) and out_g is out_f):
+            bad.append('two calls return the same array')
+        for k_, v_ in dom.attrs.items():
+            if isinstance(v_, (Arr, Num)) and before.get(k_) is not None and not P.is_pw(v_.t) and not v_.t.equals(before[k_]):
+                bad.append('Domain.%s changes during a transform' % k_)
+        if not _norm(ip, ip.term_of(out_g)[0], L).equals(T(N.sym('g'))):
+            bad.append('the transform of g after a transform of f differs from the transform of g alone')
+        if not _norm(ip, ip.term_of(out_f)[0], L).equals(T(N.sym('f'))):
+            bad.append('the first result changes when the transform is called again')
+        if bad:
+            ctx.violation('R07.p', construct, 'purity', '; '.join(sorted(set(bad))), m.loc())
+        else:
+            ctx.holds('R07.p', construct, 'argument and Domain untouched, result is a new array, successive calls independent', m.loc())
 
 
 def rule_matrixarray_transforms(ctx, rule='R07.m'):
@@ -268,41 +297,50 @@ def rule_matrixarray_transforms(ctx, rule='R07.m'):
                 ctx.violation(rule, construct, 'guard', 'array is modified (%s) before the refusal' % ev[0]['loc'], m.loc())
             else:
                 ctx.holds(rule, construct, 'ValueError before any write when already in %s space' % target, m.loc(), key='guard')
-        # (2) transformation
-        for start in (other, 'NonSpatial'):
+        # (2) transformation (data-dependent branches inside the loop are explored: every path must transform every pair)
+        from ..interp import explore
+
+        def run(preset, nm=nm):
             ip, dom, L, d = _fresh(ctx)
-            ma = W.matrixarray(ip, 'M', start, origin='marray')
+            ip.preset = list(preset)
+            ma = W.matrixarray(ip, 'M', other, origin='marray')
             e0 = len(ip.events)
-            try:
-                ip.call(ip.find_method(dom, nm), [ma], {})
-            except Raised as e:
-                if start == 'NonSpatial':
-                    continue
-                ctx.violation(rule, construct, 'transform', 'raises %s for an array in %s space' % (e, start), m.loc())
+            ip.call(ip.find_method(dom, nm), [ma], {})
+            return ip, {'dom': dom, 'ma': ma, 'e0': e0}
+        try:
+            worlds = explore(run, keep_raised=True)
+        except Unsupported as e:
+            ctx.undecided(rule, construct, str(e), m.loc())
+            continue
+        bad = []
+        data = None
+        for dec, ip, w in worlds:
+            where = (' (on the path where %s)' % ', '.join('%s is %s' % (c.show(), b_) for c, b_, _ in dec)) if dec else ''
+            if ip is None:
+                bad.append('raises %s for an array in %s space%s' % (w, other, where))
                 continue
-            if start == 'NonSpatial':
-                continue
+            dom, ma, e0 = w['dom'], w['ma'], w['e0']
             data = ma.attrs['data']
             ip.declare('c', 'curve')
             ref_in = Arr(N.NF.atom(('fn', 'ent', 'M', '@a', '@b')), 'pair', ip)
             ref = ip.call(ip.find_method(dom, scalar), [ref_in], {})
             want = N.fn('tab', ip.term_of(ref)[0])
-            bad = []
             if P.is_pw(data.t) or not data.t.equals(want):
                 stores = [x for kind, c in ip.notes if kind == 'pairloop' for x in c['stores']]
                 cov = [x.get('coverage') for x in stores]
                 bad.append('data after the call is %s; expected every unordered pair (a,b) := %s(pair(a,b)) '
-                           '[pair coverage seen: %s]' % (P.show(data.t), scalar, cov))
+                           '[pair coverage seen: %s]%s' % (P.show(data.t), scalar, cov, where))
             if ma.attrs['space'].v != ('Space', target):
-                bad.append('space flag is %r afterwards' % (ma.attrs['space'].v,))
+                bad.append('space flag is %r afterwards%s' % (ma.attrs['space'].v, where))
             evs = ip.events[e0:]
             writes = [i for i, x in enumerate(evs) if x['kind'] == 'write']
             binds = [i for i, x in enumerate(evs) if x['kind'] == 'bind' and x['target'] == 'marray.space']
             if not binds:
-                bad.append('space flag is never assigned')
+                bad.append('space flag is never assigned' + where)
             elif writes and min(binds) < max(writes):
                 bad.append('space flag is set before the last pair is stored (an exception mid-loop would leave a '
-                           'half-transformed array flagged as done)')
+                           'half-transformed array flagged as done)' + where)
+        if True:
             if bad:
                 ctx.violation(rule, construct, 'transform', '; '.join(bad), m.loc())
             else:
